@@ -78,10 +78,10 @@ W_LOOK = "get / includes_key / len / is_empty / read_fill_buffer / flush|sync on
 
 def M_KT(kt, tier="quick"):
     return {
-        "put_new": M("m_put_new_" + kt, W_PUT_NEW, functions=F_PUT, tier=tier),
+        "put_new": M("m_put_new_" + kt, W_PUT_NEW, functions=F_PUT, tier=tier, may_unsat=["value record moved", "key record moved", "relocation cascade", "moved key was"]),
         "put_over": M("m_put_over_" + kt, W_PUT_OVER, functions=F_PUT, tier=tier),
         "del_hit": M("m_del_hit_" + kt, W_DEL_HIT, functions=F_DEL, tier=tier),
-        "del_miss": M("m_del_miss_" + kt, W_DEL_MISS, functions=F_DEL, tier=tier),
+        "del_miss": M("m_del_miss_" + kt, W_DEL_MISS, functions=F_DEL, tier=tier, may_unsat=["deleted from inside", "deleted the head", "predecessor moved"]),
         "lookup": M("m_lookup_" + kt, W_LOOK, functions=F_GET + F_FL, tier=tier),
     }
 
@@ -144,6 +144,26 @@ B_CODEC = [B("b_codec_" + k, "field codec %s: bytes = documented vu64 pattern of
              functions=["vfile.rs write_/read_ %s" % k, "vu64::io"]) for k in ("offset", "size", "keylen", "vallen", "free_link")]
 B_ZERO = B("b_zero_to_offset", "write_zero_to_offset zeroes exactly [pos, target), never beyond, no-op when target <= pos", cap=300, functions=["vfile.rs write_zero_to_offset"])
 
+
+# ---------------------------------------------------------------------------- layer A
+A_TB = ["layer A runs the real default methods of trait DbXxx (src/lib.rs) on an ideal 4-entry map that implements the object-safe primitives and logs the primitive calls it receives",
+        "String::from_utf8_lossy is replaced (kani::stub) by a non-identity ASCII marker decoding in the *_string harnesses: std's UTF-8 validation exhausts 60 GB under CBMC; what is decided is the composition done by lib.rs (which value is decoded and where it lands), not std"]
+
+
+def A(name, what, bounds, fn, cap=900, tier="quick"):
+    return H("a", name, what, tier=tier, cap=cap, mem_gb=16, stubbing=True, bounds=bounds, functions=fn)
+
+
+A_ALL = [
+    A("a_bulk_get3", "bulk_get: position i holds what get of the i-th key returns, map unchanged", "ANY batch of 3 u64 keys (all orders, repeats allowed) on any map of <= 3 entries with values of 0..2 bytes", ["lib.rs DbXxx::bulk_get", "lib.rs DbXxx::get"]),
+    A("a_bulk_delete3", "bulk_delete: position i holds what delete of the i-th key returns; exactly the keys of the batch are gone", "any batch of 3 pairwise different u64 keys, any map of <= 3 entries", ["lib.rs DbXxx::bulk_delete", "lib.rs DbXxx::delete"]),
+    A("a_bulk_put3", "bulk_put leaves the map exactly as the individual puts would; every pair put once", "any batch of 3 pairs with pairwise different keys, values 0..2 bytes", ["lib.rs DbXxx::bulk_put", "lib.rs DbXxx::put"]),
+    A("a_bulk_put_string2", "bulk_put_string = individual puts of the UTF-8 bytes", "any batch of 2 pairs, ASCII strings of 0..2 bytes", ["lib.rs DbXxx::bulk_put_string"]),
+    A("a_bulk_get_string2", "bulk_get_string = bulk_get composed with the decoding, position by position", "any batch of 2 keys", ["lib.rs DbXxx::bulk_get_string"]),
+    A("a_put_from_iter3", "put_from_iter applies the pairs in iteration order (the i-th primitive put is the i-th pair; repeated keys: last wins)", "any 3 pairs, repeats allowed", ["lib.rs DbXxx::put_from_iter"]),
+    A("a_scalar_and_string", "get / includes_key / get_string / put_string / delete_string / is_empty = the primitive of the converted key composed with UTF-8 encoding / decoding", "any key, any map of <= 2 entries", ["lib.rs DbXxx::get", "lib.rs DbXxx::get_string", "lib.rs DbXxx::put_string", "lib.rs DbXxx::delete_string", "lib.rs DbXxx::includes_key", "lib.rs DbXxxBase::is_empty"]),
+]
+
 PROPS = {}
 
 
@@ -194,3 +214,8 @@ prop("C13", [K_SIGD, K_SIGUV, K_SIGV] + B_HDRR + B_OPENR, trusted_base=TB_COMMON
 prop("C12", K_HASH() + [K_VU64, K_SIGV] + B_CODEC + B_HDRW + [B_API[0], B_API[1], B_BUCKET[8], B_OPEN_NEW, K_KSLOT, K_VSLOT],
      trusted_base=TB_COMMON + B_TB, rule="differential: current code vs. the frozen format specification /verif/spec/format.rs, symbolic inputs", bounds="keys up to 17 bytes; all u64; all field values",
      outside=["golden directories opened through the real file system under Kani (no file system there); the frozen spec itself is validated natively against files written by the pinned build (bin/validate_spec)", "other cargo feature sets' formats"])
+
+prop("C14", A_ALL, trusted_base=TB_COMMON + A_TB, rule="A-harness rule: the real default method on an ideal map with a symbolic batch; post-condition through a universally quantified probe key",
+     bounds="batches of 3 (2 for the string variants); u64 keys (KT = DbU64); values of 0..2 bytes",
+     outside=["batches longer than 3: bulk_* sort the batch with the standard library's sort (insertion sort below 20 elements, so no other code path up to 20) and then pop and call the primitive - the position bookkeeping is what is decided",
+              "the exact behaviour of String::from_utf8_lossy (std)", "KT other than DbU64: the default methods are generic and use the key only through From<&Q> and Ord of Q"])
